@@ -267,6 +267,9 @@ type lox struct {
 
 	_qla    int
 	_qlasym any
+
+	// _recovering is set by _recover and cleared when a token is shifted.
+	_recovering bool
 }
 
 func (p *parser) parse(lex _Lexer) bool {
@@ -302,6 +305,9 @@ func (p *parser) parse(lex _Lexer) bool {
 					End:   latok,
 				},
 			})
+			if p._la != ERROR {
+				p._recovering = false
+			}
 			p._readToken()
 		} else { // reduce
 			prod := -action
@@ -376,6 +382,17 @@ func (p *parser) _recover() bool {
 	if !ok {
 		errSym = p._makeError()
 	}
+
+	if p._recovering {
+		// The previous recovery failed again before a single token could be
+		// shifted. Retrying with the same look-ahead would select the same
+		// recovery point forever, so the look-ahead is discarded.
+		if p._la == EOF {
+			return false
+		}
+		p._readToken()
+	}
+	p._recovering = true
 
 	for p._la == ERROR {
 		p._readToken()
